@@ -323,7 +323,9 @@ PROPS = {
         "modules": ["Stun.Properties.C03"],
         "theorems": ["Stun.C03.build_canonical", "Stun.C03.op_preserves_canonical", "Stun.C03.writeHeader_preserves",
                      "Stun.C03.writeLength_preserves", "Stun.C03.ops_canonical", "Stun.C03.canonical_wellformed",
-                     "Stun.C03.canonical_decode", "Stun.C03.equal_agrees", "Stun.BuildProofs.add_spec",
+                     "Stun.C03.canonical_decode", "Stun.C03.equal_agrees", "Stun.C03.encode_canonical",
+                     "Stun.C03.decode_then_encode", "Stun.BuildProofs.encode_of_canonical",
+                     "Stun.BuildProofs.fold_add_canonical", "Stun.BuildProofs.add_spec",
                      "Stun.BuildProofs.canonical_add", "Stun.BuildProofs.integrity_canonical",
                      "Stun.BuildProofs.fingerprint_canonical", "Stun.BuildProofs.writeHeader_spec"],
         "streams": ["build"],
